@@ -152,3 +152,203 @@ pub(crate) fn utf8_valid(b: &[u8]) -> bool {
 	}
 	true
 }
+
+// ---------------------------------------------------------------------------------------------
+/// Byte-buffer builder for reference encodings
+pub(crate) struct Enc<const N: usize> {
+	pub(crate) buf: [u8; N],
+	pub(crate) len: usize,
+}
+impl<const N: usize> Enc<N> {
+	pub(crate) fn new() -> Self {
+		Self { buf: [0; N], len: 0 }
+	}
+	pub(crate) fn bytes(&self) -> &[u8] {
+		&self.buf[..self.len]
+	}
+	pub(crate) fn byte(&mut self, b: u8) {
+		self.buf[self.len] = b;
+		self.len += 1;
+	}
+	pub(crate) fn raw(&mut self, b: &[u8]) {
+		let mut i = 0;
+		while i < b.len() {
+			self.buf[self.len + i] = b[i];
+			i += 1;
+		}
+		self.len += b.len();
+	}
+	/// int and long: zig-zag varint
+	pub(crate) fn long(&mut self, v: i64) {
+		let n = put_long(v, &mut self.buf, self.len);
+		self.len += n;
+	}
+	/// non-minimal varint: the minimal encoding of `v` padded with `pad` continuation groups of zero
+	/// (still the same number per base-128 little-endian semantics); total length must stay <= 10
+	pub(crate) fn long_padded(&mut self, v: i64, pad: usize) {
+		let n = put_long(v, &mut self.buf, self.len);
+		if pad > 0 {
+			self.buf[self.len + n - 1] |= 0x80;
+			let mut i = 0;
+			while i < pad - 1 {
+				self.buf[self.len + n + i] = 0x80;
+				i += 1;
+			}
+			self.buf[self.len + n + pad - 1] = 0x00;
+		}
+		self.len += n + pad;
+	}
+	/// bytes / string: length then content
+	pub(crate) fn len_prefixed(&mut self, b: &[u8]) {
+		self.long(b.len() as i64);
+		self.raw(b);
+	}
+	pub(crate) fn f32_bits(&mut self, bits: u32) {
+		self.byte(bits as u8);
+		self.byte((bits >> 8) as u8);
+		self.byte((bits >> 16) as u8);
+		self.byte((bits >> 24) as u8);
+	}
+	pub(crate) fn f64_bits(&mut self, bits: u64) {
+		let mut i = 0;
+		while i < 8 {
+			self.byte((bits >> (8 * i)) as u8);
+			i += 1;
+		}
+	}
+	pub(crate) fn u32_le(&mut self, v: u32) {
+		self.f32_bits(v);
+	}
+}
+
+/// length in bytes of the minimal zig-zag varint of v
+pub(crate) fn long_len(v: i64) -> usize {
+	let mut tmp = [0u8; 10];
+	put_long(v, &mut tmp, 0)
+}
+
+/// Array / map block layout: the elements (each of known encoded length) are split into blocks;
+/// `split` bit i set = a new block starts before element i (element 0 always starts a block);
+/// `neg` bit b set = block b is written with a negative count followed by its byte size.
+/// Writes headers + calls `elem(i, enc)` for every element, then the terminating 0 count.
+pub(crate) fn encode_blocks<const N: usize, L: Fn(usize) -> usize, E: Fn(usize, &mut Enc<N>)>(
+	enc: &mut Enc<N>,
+	n: usize,
+	split: u8,
+	neg: u8,
+	elem_len: L,
+	elem: E,
+) {
+	let mut i = 0;
+	let mut block = 0u8;
+	while i < n {
+		// block [i, j)
+		let mut j = i + 1;
+		while j < n && (split >> j) & 1 == 0 {
+			j += 1;
+		}
+		let count = (j - i) as i64;
+		if (neg >> block) & 1 == 1 {
+			let mut size = 0usize;
+			let mut k = i;
+			while k < j {
+				size += elem_len(k);
+				k += 1;
+			}
+			enc.long(-count);
+			enc.long(size as i64);
+		} else {
+			enc.long(count);
+		}
+		let mut k = i;
+		while k < j {
+			elem(k, enc);
+			k += 1;
+		}
+		i = j;
+		block += 1;
+	}
+	enc.long(0);
+}
+
+// ---------------------------------------------------------------------------------------------
+/// Reference *decoder* over a byte string (specification §"Binary Encoding"), sequential cursor.
+/// `noncanon` is raised when something was accepted that a conforming writer would never emit
+/// (zero-padded varint, block byte-size that disagrees with the block, int outside 32 bits): for
+/// such inputs the property does not fix Ok-vs-Err, only that an Ok value equals this decode.
+pub(crate) struct Dec<'a> {
+	pub(crate) data: &'a [u8],
+	pub(crate) pos: usize,
+	pub(crate) noncanon: bool,
+}
+impl<'a> Dec<'a> {
+	pub(crate) fn new(data: &'a [u8]) -> Self {
+		Self { data, pos: 0, noncanon: false }
+	}
+	pub(crate) fn uvarint(&mut self) -> Option<u64> {
+		let mut u: u64 = 0;
+		let mut i = 0;
+		while i < 10 {
+			if self.pos + i >= self.data.len() {
+				return None;
+			}
+			let b = self.data[self.pos + i];
+			if i == 9 && b > 1 {
+				// more than 64 bits
+				return None;
+			}
+			u |= ((b & 0x7f) as u64) << (7 * i as u32);
+			if b & 0x80 == 0 {
+				if i > 0 && b == 0 {
+					self.noncanon = true;
+				}
+				self.pos += i + 1;
+				return Some(u);
+			}
+			i += 1;
+		}
+		None
+	}
+	pub(crate) fn long(&mut self) -> Option<i64> {
+		self.uvarint().map(unzigzag64)
+	}
+	pub(crate) fn int(&mut self) -> Option<i32> {
+		let v = self.long()?;
+		if v < i32::MIN as i64 || v > i32::MAX as i64 {
+			self.noncanon = true;
+		}
+		Some(v as i32)
+	}
+	pub(crate) fn take(&mut self, n: usize) -> Option<&'a [u8]> {
+		if n > self.data.len() - self.pos {
+			return None;
+		}
+		let s = &self.data[self.pos..self.pos + n];
+		self.pos += n;
+		Some(s)
+	}
+	/// bytes: non-negative long length, then that many bytes
+	pub(crate) fn len_prefixed(&mut self) -> Option<&'a [u8]> {
+		let l = self.long()?;
+		if l < 0 {
+			return None;
+		}
+		self.take(l as usize)
+	}
+	/// next block header of an array/map: Some(0) = end, Some(n) = n items follow.
+	/// A negative count is followed by the block's size in bytes (returned in `size`).
+	pub(crate) fn block_count(&mut self, size: &mut Option<u64>) -> Option<u64> {
+		let c = self.long()?;
+		if c < 0 {
+			let s = self.long()?;
+			if s < 0 {
+				self.noncanon = true;
+			}
+			*size = Some(s as u64);
+			Some((c as u64).wrapping_neg())
+		} else {
+			*size = None;
+			Some(c as u64)
+		}
+	}
+}
